@@ -679,6 +679,21 @@ void TzDevice::exec(const std::vector<std::string>& t, int opIndex, Verdict& v, 
         }
         if (c.d.kind == K_EMPTY) return;
       }
+    } else if (how == "bname" || how == "xname") {
+      // device profile only: creation by NAME. Which zone a name maps to is C10's business and is not judged
+      // here; under C09 the call must return (no hang, no out-of-bounds read) for present and absent names alike.
+      bool ext = how[0] == 'x';
+      MgrSlot& m = ext ? xmgr : bmgr;
+      if (!m.base || t.size() < 4) return;
+      std::string name = t[3] == "EMPTY" ? "" : t[3];
+      c.tz = m.base->createForZoneName(name.c_str());
+      cov.count("probe.create_by_name");
+      if (c.tz.isError()) { c.d.kind = K_ERROR; cov.count("probe.create_by_name_absent"); }
+      else {
+        const void* zi = m.findById(c.tz.getZoneId());
+        if (!zi) return;
+        c.d.kind = ext ? K_XMGR : K_BMGR; c.d.zi = zi; c.d.zoneId = c.tz.getZoneId();
+      }
     } else if (how == "manual") {
       long sm = tokInt(t, 3, 0), dm = tokInt(t, 4, 0);
       c.tz = TimeZone::forTimeOffset(TimeOffset::forMinutes((int16_t)sm), TimeOffset::forMinutes((int16_t)dm));
@@ -973,7 +988,27 @@ struct Gen {
     for (int i = 0; i < kMaxClients; i++) if (ckind[i] == (ext ? K_XMGR : K_BMGR)) ckind[i] = K_EMPTY;
   }
 
+  std::string drawName(bool ext) {
+    int full = ext ? zonedbx::kZoneRegistrySize : zonedb::kZoneRegistrySize;
+    std::string n = zoneName(ext ? K_XMGR : K_BMGR, shippedZone(ext, (long)rng.below(full)));
+    switch (rng.below(9)) {
+      case 0: case 1: case 2: return n;                                   // present (in the full registry)
+      case 3: return n.substr(0, n.size() - 1);                           // absent: truncated
+      case 4: return n + "x";                                             // absent: extended
+      case 5: n[rng.below(n.size())] = (char)('A' + rng.below(26)); return n;   // usually absent: one letter changed
+      case 6: return rng.chance(1, 2) ? "A" : "Zzz";                      // before the first / after the last entry
+      case 7: return "EMPTY";
+      default: return "America/NotFound";
+    }
+  }
+
   void makeClient(int slot) {
+    if (mix.extremes && rng.chance(1, 7)) {
+      bool ext = rng.chance(1, 2);
+      line(fmt("TZ %d %s %s", slot, ext ? "xname" : "bname", drawName(ext).c_str()));
+      ckind[slot] = ext ? K_XMGR : K_BMGR; czone[slot] = -1;
+      return;
+    }
     unsigned r = (unsigned)rng.below(100);
     if (mix.restore && r < 22) {
       if (r < 14) {
